@@ -15,6 +15,7 @@ import (
 	"fmt"
 	"net"
 	"net/http"
+	"runtime"
 	"strings"
 	"sync"
 	"sync/atomic"
@@ -293,6 +294,9 @@ func (s *rawServer) inject(fault string) {
 		s.write([]byte(fmt.Sprintf(`{"id":%q,"from":"postmaster@example.com/srv","state":"failed","reason":{"code":1,"description":"gone"}}`, sid)))
 	case "abrupt":
 		raw.Close()
+	case "vanish": // the connection drops and the server is gone for good
+		s.ln.Close()
+		raw.Close()
 	case "reset": // the peer's kernel answers with RST: the client reads ECONNRESET, not EOF
 		if tc, ok := raw.(*net.TCPConn); ok {
 			tc.SetLinger(0)
@@ -481,6 +485,14 @@ func Replay(c Case) Result {
 	}
 	// every connection the client ever made is closed by now (the old ones when it replaced them)
 	waitFor(func() bool { return r.count("released") >= r.count("session") }, 2*time.Second)
+	if c.Cfg.Fault == "vanish" && endRes == "closed" {
+		// this case runs in a process of its own: no listener goroutine of any client may be left
+		left := "gone"
+		if !waitFor(func() bool { return !strings.Contains(allStacks(), "lime-go.(*Client).startListener") }, 2*time.Second) {
+			left = "left"
+		}
+		r.log(Event{K: "listener", Res: left})
+	}
 	r.log(Event{K: "end", Res: endRes})
 	r.mu.Lock()
 	res.Actual = append([]Event(nil), r.evs...)
@@ -854,4 +866,9 @@ func replaySrvPing(c Case) Result {
 	res.Actual = append([]Event(nil), r.evs...)
 	r.mu.Unlock()
 	return res
+}
+
+func allStacks() string {
+	buf := make([]byte, 1<<22)
+	return string(buf[:runtime.Stack(buf, true)])
 }
